@@ -141,6 +141,14 @@ def _copy_writer(contents, output):
     contents.write_to(output)
 
 
+def _fd_writer(contents, output):
+    """A producer that behaves like a child process that got `output` as its stdout (what the `run`
+    transformer and program-output sources do): the file descriptor is requested (which makes a
+    SpooledTextFile roll over to disk) and the bytes arrive in the file behind the descriptor."""
+    fd = output.fileno()
+    ffs.handle_of_fd(fd).write(contents.as_str)
+
+
 LAYER_TEXT = {
     'identity': 'identity',
     'filter': 'filter constant true',
@@ -155,6 +163,11 @@ def _layer(kind: str, model, tfs, m: int):
         from exactly_lib.util.description_tree import renderers
         return tss.transformed_string_source_from_writer(
             _copy_writer, model, lambda: renderers.header_only('copy'), m, None)
+    if kind == 'fdwriter':
+        from exactly_lib.impls.types.string_transformer.impl.sources import transformed_string_sources as tss
+        from exactly_lib.util.description_tree import renderers
+        return tss.transformed_string_source_from_writer(
+            _fd_writer, model, lambda: renderers.header_only('fd-copy'), m, None)
     return _transformer(LAYER_TEXT[kind], tfs, m).transform(model)
 
 
@@ -171,7 +184,7 @@ def _root(kind: str, fs, tfs, text: str, name: str):
     raise ValueError(kind)
 
 
-def build_source(spec, fs, tfs, parts, m: int):
+def build_source(spec, fs, tfs, parts, m: int, prefix: str = ''):
     """spec = (root, layer, ...)  with root in {'str', 'file', ('concat', root1, root2[, root3])}.
     Returns (source, denoted text)."""
     from exactly_lib.type_val_prims.string_source.impls import concat
@@ -180,14 +193,17 @@ def build_source(spec, fs, tfs, parts, m: int):
         srcs = []
         text = ''
         for i, rk in enumerate(root[1:]):
-            src_i, text_i = _root(rk, fs, tfs, parts[i], 'p%d' % i)
+            src_i, text_i = _root(rk, fs, tfs, parts[i], '%sp%d' % (prefix, i))
             srcs.append(src_i)
             text = text + text_i
         src = concat.string_source(srcs, m, 'concat')
     else:
-        src, text = _root(root, fs, tfs, parts[0], 'p0')
+        src, text = _root(root, fs, tfs, parts[0], prefix + 'p0')
     for layer in spec[1:]:
         src = _layer(layer, src, tfs, m)
+        if layer == 'fdwriter':
+            # the text of program output is what reading the file it was written to gives
+            text = ffs.universal_newlines(text)
     return src, text
 
 
@@ -195,7 +211,11 @@ def spec_has_cache(spec) -> bool:
     """Does the source contain a StringSourceWithCachedFrozen (=> a SpooledTextFile when frozen)?"""
     if isinstance(spec[0], tuple):
         return True
-    return any(layer in ('filter', 'filter2', 'seq', 'writer') for layer in spec[1:])
+    return any(layer in ('filter', 'filter2', 'seq', 'writer', 'fdwriter') for layer in spec[1:])
+
+
+def spec_needs_fd(spec) -> bool:
+    return 'fdwriter' in spec[1:]
 
 
 def n_parts(spec) -> int:
@@ -244,6 +264,8 @@ STUB_STRINGIO = 'spooled_file._io.StringIO(newline="\\n") -> harness/_C14_fakefs
 STUB_FSTAT = 'frozen.os.fstat(fileno).st_size -> number of bytes of the fake file'
 STUB_TFS = 'DirFileSpace.new_path -> counter-named path in the fake file system'
 STUB_FILECMP = 'equality.filecmp.cmp(a, b, shallow=False) -> byte equality of the two fake files'
+STUB_FD = ('child process writing to the descriptor obtained by fileno() (layer "fdwriter") -> the bytes are appended to the '
+           'fake file behind the descriptor at its current offset')
 STUBS_FS = (STUB_FILE, STUB_STRINGIO, STUB_FSTAT, STUB_TFS)
 
 # accesses
@@ -251,8 +273,9 @@ A_STR, A_LINES, A_WRITE, A_FILE, A_FREEZE = 'A', 'L', 'W', 'F', 'Z'
 ACCESSES = 'ALWFZ'
 
 
-def _observe(src, acc: str, text: str, lines: List[str]) -> bool:
-    """Performs one access on the source and compares what it delivers with the denoted text."""
+def _observe(src, acc: str, text: str, lines: List[str], fd_sink=None) -> bool:
+    """Performs one access on the source and compares what it delivers with the denoted text.
+    fd_sink: a FakeDirFileSpace if write_to must be given a file with a descriptor."""
     if acc == A_FREEZE:
         src.freeze()
         return True
@@ -264,6 +287,11 @@ def _observe(src, acc: str, text: str, lines: List[str]) -> bool:
             got = list(it)
         return got == lines
     if acc == A_WRITE:
+        if fd_sink is not None:
+            path = fd_sink.new_path('sink')
+            with path.open('x') as sink:
+                contents.write_to(sink)
+            return ffs.utf8_decode(fd_sink.fs.raw_of(path)) == text
         sink = ffs.PyStringIO()
         contents.write_to(sink)
         return sink.getvalue() == text
@@ -277,6 +305,19 @@ def _observe(src, acc: str, text: str, lines: List[str]) -> bool:
             got = list(f)
         return got == lines
     raise ValueError(acc)
+
+
+def _split_after(text: str, seps: str) -> List[str]:
+    out = []
+    cur = ''
+    for ch in text:
+        cur += ch
+        if ch in seps:
+            out.append(cur)
+            cur = ''
+    if cur:
+        out.append(cur)
+    return out
 
 
 def _k2_texts_ok(c, parts) -> bool:
@@ -343,21 +384,198 @@ def k2_access(s: str, t: str, u: str, m: int, a0: int, a1: int, a2: int) -> bool
     ffs.install(fs)
     src, text = build_source(c['spec'], fs, tfs, (s, t, u), m)
     lines = ref_lines(text)
-    if c.get('oracle_bug') == 'cr-at-lines':
-        # seeded oracle error: a reference that divides lines at CR too
-        lines = text.splitlines(keepends=True)
+    if c.get('oracle_bug') == 'lines':
+        # seeded oracle error: a reference line division that also divides after 'a'
+        lines = [x for x in _split_after(text, 'a\n')]
     seq = list(c['seq'])
     sel = (a0, a1, a2)
     for i in range(c.get('nsym', 0)):
         seq.append(ACCESSES[int(sel[i])])
     ok = True
+    fd_sink = tfs if spec_needs_fd(c['spec']) else None
     for acc in seq:
-        if not _observe(src, acc, text, lines):
+        if not _observe(src, acc, text, lines, fd_sink):
             ok = False
             break
     if c.get('oracle_bug') == 'in-memory':
         # seeded oracle error: "a frozen text is always held in memory"
         ok = ok and not src.contents().may_depend_on_external_resources
+    return ob.post(ok)
+
+
+
+# ---------------------------------------------------------------------------------- K3
+
+REAL_K3 = (
+    'exactly_lib.impls.types.string_matcher.impl.equality._EqualityStringMatcher',
+    'exactly_lib.impls.types.string_matcher.impl.equality._ApplierWExtDepsCases',
+    'exactly_lib.impls.types.string_matcher.impl.equality._ExtDepsOfBothHandler',
+    'exactly_lib.impls.types.string_matcher.impl.equality._min_num_chars_to_read',
+    'exactly_lib.type_val_prims.string_source.string_source.read_lines_as_str__w_minimum_num_chars',
+    'exactly_lib.util.str_.read_lines.read_lines_as_str__w_minimum_num_chars',
+) + REAL_K2
+
+
+def _equals_matcher(expected_source):
+    from exactly_lib.impls.types.string_matcher.impl import equality
+    from exactly_lib.type_val_deps.dep_variants.ddv import ddv_validators
+    from exactly_lib.type_val_deps.dep_variants.ddv.ddv_validation import ConstantDdvValidator
+    return equality._EqualityStringMatcher(
+        expected_source,
+        ddv_validators.FixedPreOrPostSdsValidator(None, ConstantDdvValidator.new_success()))
+
+
+def _pre_k3(e: str, a: str, m: int) -> bool:
+    c = ob.case()
+    if m < 1:
+        return False
+    if len(e) > c['maxlen'] or len(a) > c['maxlen']:
+        return False
+    if 'maxtotal' in c and len(e) + len(a) > c['maxtotal']:
+        return False
+    if not in_alphabet(e, c['alphabet']) or not in_alphabet(a, c['alphabet']):
+        return False
+    if ob.excluded(R_CR) and (has_cr(e) or has_cr(a)):
+        return False
+    if ob.excluded(R_SPLITLINES) and (has_split_noncr(e) or has_split_noncr(a)):
+        return False
+    if ob.excluded(R_ROLLOVER):
+        if spec_has_cache(c['espec']) and has_nonascii(e):
+            return False
+        if spec_has_cache(c['aspec']) and has_nonascii(a):
+            return False
+    return True
+
+
+def k3_equals(e: str, a: str, m: int) -> bool:
+    """
+    pre: _pre_k3(e, a, m)
+    post: _
+    """
+    c = ob.case()
+    fs = ffs.FakeFs()
+    tfs = ffs.FakeDirFileSpace(fs)
+    ffs.install(fs)
+    expected, text_e = build_source(c['espec'], fs, tfs, (e,), m, 'e-')
+    actual, text_a = build_source(c['aspec'], fs, tfs, (a,), m, 'a-')
+    for acc in c.get('apre', ''):
+        # what happened to the model before the matcher sees it (e.g. frozen by `&&`)
+        if not _observe(actual, acc, text_a, ref_lines(text_a)):
+            return ob.post(False)
+    matcher = _equals_matcher(expected)
+    want = text_e == text_a
+    if c.get('oracle_bug'):
+        # seeded oracle error: "texts that differ only in a final new-line are equal"
+        want = text_e.rstrip('\n') == text_a.rstrip('\n')
+    first = matcher.matches_w_trace(actual).value
+    second = matcher.matches_w_trace(actual).value
+    return ob.post(first == want and second == want)
+
+
+# ---------------------------------------------------------------------------------- K4
+
+REAL_K4 = (
+    'exactly_lib.impls.types.string_matcher.parse_string_matcher.parsers',
+    'exactly_lib.impls.types.string_matcher.parse_string_matcher._model_freezer',
+    'exactly_lib.impls.types.string_matcher.parse_string_matcher._parse_on_transformed',
+    'exactly_lib.impls.types.string_matcher.impl.on_transformed.StringMatcherWithTransformation',
+    'exactly_lib.impls.types.string_matcher.impl.emptiness.EmptinessStringMatcher',
+    'exactly_lib.impls.types.string_matcher.impl.num_lines._PropertyGetter',
+    'exactly_lib.impls.types.matcher.impls.combinator_matchers.Conjunction',
+    'exactly_lib.impls.types.matcher.impls.combinator_matchers.Disjunction',
+    'exactly_lib.impls.types.matcher.impls.combinator_sdvs.Conjunction',
+    'exactly_lib.impls.types.string_source.ddvs.ConstantStringStringSourceDdv',
+    'exactly_lib.impls.types.string_source.parse.string_source_parser',
+) + REAL_K3
+
+STUB_INT = 'python_evaluate -> placeholder table (the integer literal K0 denotes the symbolic integer k)'
+
+K4_MATCHERS = {
+    'is-empty': 'is-empty',
+    'num-lines': 'num-lines == K0',
+    'equals': 'equals @[E]@',
+}
+
+K4_WRAPPERS = {
+    'plain': '%s',
+    'and': '( %s && %s )',
+    'or': '( %s || %s )',
+    'identity': '-transformed-by identity %s',
+    'identity-and': '-transformed-by identity ( %s && %s )',
+    'and-identity': '( -transformed-by identity %s && %s )',
+    'identity-seq': '-transformed-by ( identity | identity ) %s',
+}
+
+
+def _string_matcher(text: str, tfs, m: int, e: str):
+    from vsym import xly
+    from exactly_lib.impls.types.string_matcher import parse_string_matcher
+    from exactly_lib.symbol.sdv_structure import SymbolContainer
+    from exactly_lib.symbol.value_type import ValueType
+    from exactly_lib.type_val_deps.types.string_ import string_sdvs
+    from exactly_lib.util.symbol_table import SymbolTable
+    sdv = xly.parse_cached('string-matcher', parse_string_matcher.parsers(False).full, text)
+    symbols = SymbolTable({'E': SymbolContainer(string_sdvs.str_constant(e), ValueType.STRING, None)})
+    return sdv.resolve(symbols).value_of_any_dependency(None).primitive(_app_env(tfs, m))
+
+
+def _pre_k4(s: str, e: str, k: int, m: int) -> bool:
+    c = ob.case()
+    if m < 1:
+        return False
+    if len(s) > c['maxlen']:
+        return False
+    if c['matcher'] == 'equals':
+        if len(e) > c['maxlen']:
+            return False
+    elif len(e) != 0:
+        return False
+    if c['matcher'] != 'num-lines' and k != 0:
+        return False
+    if not in_alphabet(s, c['alphabet']) or not in_alphabet(e, c['alphabet']):
+        return False
+    if ob.excluded(R_CR) and (has_cr(s) or has_cr(e)):
+        return False
+    if ob.excluded(R_SPLITLINES) and (has_split_noncr(s) or has_split_noncr(e)):
+        return False
+    if ob.excluded(R_ROLLOVER) and spec_has_cache(c['spec']) and has_nonascii(s):
+        return False
+    return True
+
+
+def k4_wrappers(s: str, e: str, k: int, m: int) -> bool:
+    """
+    pre: _pre_k4(s, e, k, m)
+    post: _
+    """
+    from vsym import xly
+    c = ob.case()
+    fs = ffs.FakeFs()
+    tfs = ffs.FakeDirFileSpace(fs)
+    ffs.install(fs)
+    xly.install_int_placeholders([k])
+    base = K4_MATCHERS[c['matcher']]
+    ok = True
+    n = 0
+    for w in c['wrappers']:
+        text_w = K4_WRAPPERS[w]
+        text_w = text_w % ((base,) * text_w.count('%s'))
+        n += 1
+        model, text = build_source(c['spec'], fs, tfs, (s,), m, 'm%d-' % n)
+        if c['matcher'] == 'is-empty':
+            want = text == ''
+        elif c['matcher'] == 'num-lines':
+            want = len(ref_lines(text)) == k
+        else:
+            want = text == e
+        if c.get('oracle_bug') and w != 'plain':
+            # seeded oracle error: "a wrapped matcher sees one line less"
+            want = (len(ref_lines(text)) - 1 == k) if c['matcher'] == 'num-lines' else not want
+        matcher = _string_matcher(text_w, tfs, m, e)
+        got = matcher.matches_w_trace(model).value
+        if got != want:
+            ok = False
+            break
     return ob.post(ok)
 
 
@@ -388,7 +606,7 @@ def _k2_ob(spec, seq, maxlen, alphabet, timeout, nsym=0, tag='', **extra) -> Ob:
               'every text of <= %d characters (in total) over %s; every memory buffer size m >= 1 (Z)' % (
                   _spec_name(spec), seq, (' followed by every sequence of %d accesses' % nsym) if nsym else '',
                   maxlen, _alpha_name(alphabet)),
-        timeout=timeout, real=REAL_K2, stubs=STUBS_FS,
+        timeout=timeout, real=REAL_K2, stubs=STUBS_FS + ((STUB_FD,) if spec_needs_fd(spec) else ()),
         outside=('real files and real program output: the text-file stand-in\'s fidelity is an assumption, '
                  'self-tested against real temporary files on concrete strings',
                  'encodings other than UTF-8; Windows newline handling'),
@@ -396,34 +614,154 @@ def _k2_ob(spec, seq, maxlen, alphabet, timeout, nsym=0, tag='', **extra) -> Ob:
     )
 
 
-K2_SPECS = [
-    ('str',), ('file',),
-    ('str', 'identity'), ('file', 'identity'),
-    ('str', 'filter'), ('file', 'filter'),
-    ('str', 'writer'), ('file', 'writer'),
-    (('concat', 'str', 'str'),), (('concat', 'str', 'file'),), (('concat', 'str', 'str', 'str'),),
+ALPHA_MAIN = 'a\n\ré'  # plain, LF, CR, a two-byte character
+ALPHA_FF = 'a\n\x0c'  # plain, LF, FF (a str.splitlines-only line break)
+
+SEQ_ROOT = 'ALWFZLAWF'  # sources for which freeze() is (nearly) a no-op
+SEQ_UNFROZEN_THEN_FROZEN = 'ALWFLAWZLAWF'  # all accesses, as_file cached, then frozen, all accesses
+SEQ_FROZEN_FIRST = 'ZALWFLAW'  # frozen before anything was generated
+
+K2_ROOT_SPECS = [('str',), ('file',), ('str', 'identity'), ('file', 'identity')]
+K2_CACHED_SPECS = [
+    ('str', 'filter'), ('file', 'filter'), ('str', 'writer'), ('file', 'writer'),
     ('str', 'filter', 'filter2'), ('str', 'writer', 'filter'), ('str', 'seq'),
+    ('str', 'fdwriter'),
 ]
-K2_SEQS = ['ALWFLAW', 'ZALWFLAW', 'FZLAWF']
+K2_CACHED_SPECS_ONE_SEQ_IN_QUICK = [('file', 'filter'), ('str', 'writer'), ('str', 'filter', 'filter2'), ('str', 'seq')]
+K2_CONCAT2_SPECS = [(('concat', 'str', 'str'),), (('concat', 'str', 'file'),)]
+K2_THOROUGH_SPECS = [
+    ('file', 'fdwriter'), ('str', 'fdwriter', 'filter'), (('concat', 'str', 'str'), 'fdwriter'),
+    ('file', 'filter', 'identity'), ('file', 'writer', 'filter', 'filter2'), ('file', 'seq'),
+    (('concat', 'file', 'str'),), (('concat', 'file', 'file'),),
+    (('concat', 'str', 'str'), 'filter'), (('concat', 'str', 'file'), 'writer'),
+]
+K2_CONCAT3_SPECS = [(('concat', 'str', 'str', 'str'),), (('concat', 'str', 'file', 'str'),)]
+
+K3_OUTSIDE = ('real files; filecmp is replaced by byte equality of the stand-in files',)
+
+
+def _k3_ob(espec, aspec, apre, maxlen, alphabet, timeout, **extra) -> Ob:
+    case = dict(espec=espec, aspec=aspec, apre=apre, maxlen=maxlen, alphabet=alphabet)
+    case.update(extra)
+    return Ob(
+        name='K3:%s=%s%s' % (_spec_name(espec), _spec_name(aspec), (':' + apre) if apre else ''),
+        fn='k3_equals', case=case, kernel='K3',
+        bound='equals: expected %s, actual %s%s; every pair of texts of <= %d characters each over %s; '
+              'every memory buffer size m >= 1; matcher applied twice' % (
+                  _spec_name(espec), _spec_name(aspec), (' after accesses ' + apre) if apre else '',
+                  maxlen, _alpha_name(alphabet)),
+        timeout=timeout, real=REAL_K3, stubs=STUBS_FS + (STUB_FILECMP,), outside=K3_OUTSIDE,
+        entry='_EqualityStringMatcher(expected).matches_w_trace(actual)')
+
+
+def _k4_ob(matcher, spec, wrappers, maxlen, alphabet, timeout, tag='', **extra) -> Ob:
+    case = dict(matcher=matcher, spec=spec, wrappers=tuple(wrappers), maxlen=maxlen, alphabet=alphabet)
+    case.update(extra)
+    return Ob(
+        name='K4:%s:%s%s' % (matcher, _spec_name(spec), tag), fn='k4_wrappers', case=case, kernel='K4',
+        bound='matcher `%s` written as %s, parsed by the real parser, on model %s: every text of <= %d characters '
+              'over %s%s; every memory buffer size m >= 1' % (
+                  K4_MATCHERS[matcher], ' / '.join('`%s`' % K4_WRAPPERS[w].replace('%s', 'M') for w in wrappers),
+                  _spec_name(spec), maxlen, _alpha_name(alphabet),
+                  {'num-lines': ', every K0 in Z', 'equals': ', every expected text E of the same bound',
+                   'is-empty': ''}[matcher]),
+        timeout=timeout, real=REAL_K4,
+        stubs=STUBS_FS + (STUB_FILECMP,) + ((STUB_INT,) if matcher == 'num-lines' else ()),
+        entry='parse_string_matcher.parsers().full -> matches_w_trace(model)')
 
 
 def obligations(tier: str) -> List[Ob]:
     obs = []
     thorough = tier == 'thorough'
     # ---- K1
+    n1 = 8 if thorough else 5
     for impl in ('str', 'frozen'):
         obs.append(Ob(
-            name='K1:lines:' + impl, fn='k1_lines', case=dict(impl=impl, maxlen=4 if thorough else 3), kernel='K1',
-            bound='every text of <= %d characters, unrestricted Unicode' % (4 if thorough else 3),
-            timeout=300, real=REAL_K1, stubs=(STUB_TFS,),
+            name='K1:lines:' + impl, fn='k1_lines', case=dict(impl=impl, maxlen=n1), kernel='K1',
+            bound='every text of <= %d characters, unrestricted Unicode' % n1,
+            timeout=900 if thorough else 120, real=REAL_K1, stubs=(STUB_TFS,),
             entry='ContentsOfStr / _StringSourceContentsOfConstStrAndExistingPath .as_lines'))
     obs.append(Ob(name='K1:seeded-oracle-error', fn='k1_lines', case=dict(impl='str', maxlen=2, oracle_bug=True),
                   kernel='K1', bound='seeded oracle error: lines without their line ending', timeout=120,
                   expect=ob.REFUTE, real=REAL_K1))
+
     # ---- K2
-    for spec in K2_SPECS:
-        for seq in K2_SEQS:
-            obs.append(_k2_ob(spec, seq, 3, ALPHA_FULL, 600))
+    n2 = 4 if thorough else 3
+    t2 = 2400 if thorough else 300
+    for spec in K2_ROOT_SPECS:
+        obs.append(_k2_ob(spec, SEQ_ROOT, n2, ALPHA_MAIN, t2))
+    for spec in K2_CACHED_SPECS:
+        obs.append(_k2_ob(spec, SEQ_FROZEN_FIRST, n2, ALPHA_MAIN, t2))
+        if thorough or spec not in K2_CACHED_SPECS_ONE_SEQ_IN_QUICK:
+            obs.append(_k2_ob(spec, SEQ_UNFROZEN_THEN_FROZEN, n2, ALPHA_MAIN, t2))
+    for spec in K2_CONCAT2_SPECS:
+        # all characters on short texts; the line-joining logic of concat (sensitive to LF / not LF only) on longer ones
+        obs.append(_k2_ob(spec, SEQ_UNFROZEN_THEN_FROZEN, 3 if thorough else 2, ALPHA_MAIN, 2400 if thorough else 300))
+        obs.append(_k2_ob(spec, SEQ_FROZEN_FIRST, 3 if thorough else 2, ALPHA_MAIN, 2400 if thorough else 300))
+        if thorough or spec == K2_CONCAT2_SPECS[0]:
+            obs.append(_k2_ob(spec, SEQ_UNFROZEN_THEN_FROZEN, 4 if thorough else 3, ALPHA_PLAIN,
+                              2400 if thorough else 300, tag=':plain'))
+    # FF: a character at which only str.splitlines divides
+    obs.append(_k2_ob(('str',), SEQ_FROZEN_FIRST, 3, ALPHA_FF, 300, tag=':FF'))
+    obs.append(_k2_ob(('file', 'filter'), SEQ_FROZEN_FIRST, 3, ALPHA_FF, 300, tag=':FF'))
+    obs.append(_k2_ob((('concat', 'str', 'str'),), SEQ_FROZEN_FIRST, 3 if thorough else 2, ALPHA_FF, 600, tag=':FF'))
+    if thorough:
+        for spec in K2_THOROUGH_SPECS:
+            obs.append(_k2_ob(spec, SEQ_UNFROZEN_THEN_FROZEN, 3, ALPHA_MAIN, 2400))
+            obs.append(_k2_ob(spec, SEQ_FROZEN_FIRST, 3, ALPHA_MAIN, 2400))
+        for spec in K2_CONCAT3_SPECS:
+            obs.append(_k2_ob(spec, SEQ_UNFROZEN_THEN_FROZEN, 2, ALPHA_MAIN, 2400))
+            obs.append(_k2_ob(spec, SEQ_FROZEN_FIRST, 3, ALPHA_PLAIN, 2400, tag=':plain'))
+        # every order of three accesses: a concrete first access followed by two symbolic selectors
+        for spec in [('str', 'filter'), ('file', 'writer'), (('concat', 'str', 'str'),)]:
+            for first in ACCESSES:
+                obs.append(_k2_ob(spec, first, 2, ALPHA_MAIN, 2400, nsym=2))
+    obs.append(_k2_ob(('str', 'filter'), SEQ_FROZEN_FIRST, 3, ALPHA_PLAIN, 120, tag=':seeded-in-memory',
+                      oracle_bug='in-memory'))
+    obs[-1].expect = ob.REFUTE
+    obs[-1].bound = 'seeded oracle error: "a frozen text is always held in memory" (must be refuted through m)'
+    obs.append(_k2_ob(('str', 'writer'), SEQ_FROZEN_FIRST, 3, ALPHA_PLAIN, 120, tag=':seeded-lines',
+                      oracle_bug='lines'))
+    obs[-1].expect = ob.REFUTE
+    obs[-1].bound = 'seeded oracle error: a reference line division that also divides after "a"'
+
+    # ---- K3
+    t3 = 2400 if thorough else 300
+    e_specs = [('str',), ('file',), ('str', 'writer')]
+    a_specs = [(('str',), ''), (('file',), ''), (('str', 'writer'), 'Z')]
+    if thorough:
+        e_specs += [('file', 'filter')]
+        a_specs += [(('str', 'writer'), ''), (('file', 'filter'), 'ZL'), (('str', 'identity'), ''),
+                    (('str', 'writer'), 'F')]
+    for espec in e_specs:
+        for aspec, apre in a_specs:
+            obs.append(_k3_ob(espec, aspec, apre, 2, ALPHA_MAIN, t3))
+    if thorough:
+        for espec in [('str',), ('file',), ('str', 'writer')]:
+            for aspec, apre in [(('str',), ''), (('file',), ''), (('str', 'writer'), 'Z')]:
+                obs.append(_k3_ob(espec, aspec, apre, 3, ALPHA_PLAIN, t3))
+                obs[-1].name += ':plain3'
+    obs.append(_k3_ob(('str', 'writer'), ('file',), '', 2, ALPHA_PLAIN, 120, oracle_bug=True))
+    obs[-1].name += ':seeded-oracle-error'
+    obs[-1].expect = ob.REFUTE
+    obs[-1].bound = 'seeded oracle error: texts that differ only in a final new-line count as equal'
+
+    # ---- K4
+    w_quick = ('plain', 'and', 'identity')
+    w_all = ('plain', 'and', 'or', 'identity', 'identity-and', 'and-identity', 'identity-seq')
+    k4_models = [('str',), ('str', 'filter')]
+    if thorough:
+        k4_models += [('file', 'writer'), (('concat', 'str', 'file'),)]
+    for matcher in ('is-empty', 'num-lines', 'equals'):
+        for spec in k4_models:
+            n4 = 2 if matcher == 'equals' else 3
+            obs.append(_k4_ob(matcher, spec, w_all if thorough else w_quick, n4, ALPHA_MAIN,
+                              3000 if thorough else 400))
+    obs.append(_k4_ob('num-lines', ('str',), w_quick, 3, ALPHA_FF, 400, tag=':FF'))
+    obs.append(_k4_ob('num-lines', ('str', 'filter'), ('plain', 'and'), 2, ALPHA_PLAIN, 120,
+                      tag=':seeded-oracle-error', oracle_bug=True))
+    obs[-1].expect = ob.REFUTE
+    obs[-1].bound = 'seeded oracle error: "a wrapped matcher sees one line less"'
     return obs
 
 
